@@ -4,14 +4,12 @@ import (
 	"context"
 	"fmt"
 	"strings"
-	"sync"
 	"testing"
 	"time"
 
 	orbitdb "berty.tech/go-orbit-db"
 	"berty.tech/go-orbit-db/iface"
 	"berty.tech/go-orbit-db/stores"
-	"github.com/libp2p/go-libp2p/p2p/host/eventbus"
 	"pgregory.net/rapid"
 	"verif/harness/model"
 	"verif/harness/world"
@@ -92,37 +90,39 @@ func execC05(c CaseC05) *Outcome {
 	tr := newTracker()
 	cnt := 0
 
-	// acknowledgement of replicated batches: marks placed when the replicated event is observed
-	var subMu sync.Mutex
-	stopSub := func() {}
-	watch := func(s iface.Store) {
-		stopSub()
-		sub, err := s.EventBus().Subscribe(new(stores.EventReplicated), eventbus.BufSize(256))
-		if err != nil {
-			return
-		}
-		done := make(chan struct{})
-		go func() {
-			defer close(done)
-			for e := range sub.Out() {
-				ev := e.(stores.EventReplicated)
-				var hs []string
-				for _, en := range ev.Entries {
-					hs = append(hs, en.GetHash().String())
-				}
-				subMu.Lock()
-				j.Mark("ack " + strings.Join(hs, " "))
-				subMu.Unlock()
+	// acknowledgement of replicated batches: the store under test gets a harness-owned event bus whose
+	// Emit places the mark in the journal at the very moment the replicated event is emitted, i.e.
+	// between the persistence effects issued before and after the emission (a subscriber goroutine
+	// would place it some effects later)
+	tapOpts := func() *orbitdb.CreateDBOptions {
+		return &orbitdb.CreateDBOptions{Replicate: &no, EventBus: world.NewTapBus(func(evt interface{}) {
+			ev, ok := evt.(stores.EventReplicated)
+			if !ok {
+				return
 			}
-		}()
-		stopSub = func() {
-			sub.Close()
-			<-done
-			stopSub = func() {}
-		}
+			var hs []string
+			for _, en := range ev.Entries {
+				hs = append(hs, en.GetHash().String())
+			}
+			j.Mark("ack " + strings.Join(hs, " "))
+		})}
 	}
-	watch(cl.Stores[0])
-	defer func() { stopSub() }()
+	{
+		if err := cl.Stores[0].Close(); err != nil {
+			return fail("harness: %v", err)
+		}
+		s, err := p0.DB.Open(ctx, cl.Addr, tapOpts())
+		if err != nil {
+			return fail("harness: reopen with the tapped bus: %v", err)
+		}
+		if err := s.Load(ctx, -1); err != nil {
+			return fail("harness: %v", err)
+		}
+		cl.Stores[0] = s
+	}
+	stopSub := func() {}
+	watch := func(iface.Store) {}
+	start = j.Len()
 
 	write := func(wr int, st StepC05) error {
 		s := cl.Stores[wr]
@@ -187,7 +187,7 @@ func execC05(c CaseC05) *Outcome {
 			if err != nil {
 				return fail("step %d: restart: %v", i, err)
 			}
-			s, err := db.Open(ctx, cl.Addr, &orbitdb.CreateDBOptions{Replicate: &no})
+			s, err := db.Open(ctx, cl.Addr, tapOpts())
 			if err != nil {
 				return fail("step %d: reopen: %v", i, err)
 			}
